@@ -124,7 +124,7 @@ Definition expected_look (crc : bytes -> N) (rs : list wrec) (h : bytes) : look 
   match assoc h (spec_ranges 0 rs []), spec_payload rs h with
   | Some (o, l), Some p =>
     if chunk_ok crc p then {| l_found := true; l_off := o; l_len := l; l_st := 1; l_sum := crc p |}
-    else {| l_found := true; l_off := o; l_len := l; l_st := if lenN p <? 4 then 3 else 2; l_sum := 0 |}
+    else {| l_found := true; l_off := o; l_len := l; l_st := 2; l_sum := 0 |}
   | _, _ => {| l_found := false; l_off := 0; l_len := 0; l_st := 0; l_sum := 0 |}
   end.
 
